@@ -43,9 +43,10 @@ NEGATIVE = {
     "no_loop": r"Invariant Inv\w+ is violated",
     "wait_last_only": r"Invariant InvNoFgLeft is violated",
     "leak_writer": "Deadlock reached",
+    "leak_reader": "Deadlock reached",
 }
 
-ACTIONS = ["ASimple", "AProbe", "ARead", "AWrite", "AForkSub", "AForkCs", "AForkBg", "AForkStage", "AReadEof",
+ACTIONS = ["ASimple", "AProbe", "ARead", "AWrite", "ABigWrite", "AForkSub", "AForkCs", "AForkBg", "AForkStage", "AReadEof",
            "AEnable", "APollFg", "AReapFg", "APollAny", "AReapAny", "AWake", "AWaitChk", "AExit", "ACollect"]
 
 
@@ -61,16 +62,27 @@ def _expected(entry):
     return {"status": entry["status"], "gl": entry["gl"], "procs": procs}
 
 
+def _m(e, o):
+    """Procs!Match: -2 = any status (a race in the script), -1 = some non-zero status."""
+    return e == -2 or (e == -1 and o != 0) or e == o
+
+
 def _digest_equal(exp, dig):
-    if dig["outcome"] != "completed" or dig["status"] != exp["status"] or dig["gl"] != exp["gl"]:
+    if dig["outcome"] != "completed" or not _m(exp["status"], dig["status"]) or len(dig["gl"]) != len(exp["gl"]):
         return False
+    for e, d in zip(exp["gl"], dig["gl"]):
+        if e[0] != d[0] or e[1] != d[1] or not _m(e[2], d[2]) or e[3] != d[3]:
+            return False
     if set(dig["procs"]) != set(exp["procs"]):
         return False
     for k, e in exp["procs"].items():
         d = dig["procs"][k]
-        if d["pr"] != e["pr"]:
+        if len(d["pr"]) != len(e["pr"]):
             return False
-        if k != "[]" and d["xs"] != e["xs"]:      # the main process never calls exit in the harness
+        for ep, dp in zip(e["pr"], d["pr"]):
+            if ep[0] != dp[0] or not _m(ep[1], dp[1]) or ep[2] != dp[2]:
+                return False
+        if k != "[]" and not _m(e["xs"], d["xs"]):      # the main process never calls exit in the harness
             return False
     return True
 
